@@ -342,9 +342,14 @@ class SelWorld:
 
 def count_inner_outputs(vm, base_cls_name, counter):
     """wrap the real <base>._evaluate__ (the else-if / union the selector extends): every result it hands to the selector is counted"""
-    from pyvc.ctx import PathEnd
-    base = vm.loader.cls(SYM, base_cls_name)
-    real = base.find("_evaluate__", vm.loader)[2]
+    from pyvc.ctx import PathEnd, Unsupported
+    # the class below the selector in its MRO that defines _evaluate__ (today: ElseIf for Alternative, Union for Next)
+    sel = vm.loader.cls(CS, base_cls_name)
+    base = next((c for c in sel.mro(vm.loader)[1:] if hasattr(c, "methods") and "_evaluate__" in c.methods), None)
+    if base is None:
+        raise Unsupported(f"no class below {base_cls_name} defines _evaluate__")
+    base_cls_name = base.name
+    real = base.methods["_evaluate__"]
 
     def wrapped(it, a, k):
         key = f"{base_cls_name}._evaluate__"
@@ -426,7 +431,7 @@ def h_alternative():
         src = vm.alloc(vm.ext("object"), {}, tag="incoming-bindings")
         n_updates = 0
         handed, passed = [], []
-        count_inner_outputs(vm, "ElseIf", handed)
+        count_inner_outputs(vm, "Alternative", handed)
         from pyvc.ctx import PathEnd as _PathEnd
 
         def all_results():
@@ -482,7 +487,7 @@ def h_next():
         src = vm.alloc(vm.ext("object"), {}, tag="incoming-bindings")
         n_updates = 0
         handed, passed = [], []
-        count_inner_outputs(vm, "Union", handed)
+        count_inner_outputs(vm, "Next", handed)
         from pyvc.ctx import PathEnd as _PathEnd
 
         def all_results():
